@@ -506,6 +506,25 @@ def copyprop(fn, known_locals, log):
                 if isinstance(ku, dict) and ku.get("k") == "this" or (isinstance(ku, dict) and ku.get("k") == "un" and ku.get("op") == "*" and isinstance(ir.unwrap(ku["e"]), dict) and ir.unwrap(ku["e"]).get("k") == "this"):
                     all_fields_unstable = True
         for y in walk(e["expr"]):
+            if y.get("k") == "bin" and y.get("op") in ("<<", ">>"):
+                # dependent stream insertion/extraction in a template pattern: the leftmost operand is modified
+                t = y
+                while isinstance(t, dict) and t.get("k") == "bin" and t.get("op") in ("<<", ">>"):
+                    t = ir.unwrap(t["l"])
+                if isinstance(t, dict) and t.get("k") == "ref":
+                    kind, _, nm = t.get("decl", "").partition(":")
+                    (written_l if kind == "local" else written_p).add(nm)
+                elif isinstance(t, dict) and t.get("k") == "member":
+                    written_f.add(t.get("field"))
+            if y.get("k") == "call" and y.get("dep"):
+                for a in y.get("args", []):
+                    t = ir.unwrap(a)
+                    if isinstance(t, dict) and t.get("k") == "ref":
+                        kind, _, nm = t.get("decl", "").partition(":")
+                        ty = (decls.get(nm, {}).get("type") or "") if kind == "local" else next((p0.get("type") or "" for p0 in fn.params if p0.get("name") == nm), "")
+                        if ty.startswith("const ") and not ty.rstrip().endswith("*"):
+                            continue  # a const object / reference to const cannot be modified through this name
+                        (written_l if kind == "local" else written_p).add(nm)
             if y.get("k") == "un" and y.get("op") == "&":
                 t = ir.unwrap(y["e"])
                 if isinstance(t, dict) and t.get("k") == "ref" and t.get("decl", "").startswith("local:"):
